@@ -234,9 +234,18 @@ int URI_FUNC(ComposeQueryEngine)(URI_CHAR * dest,
 		valueRequiredChars = worstCase * (int)valueLen;
 
 		if (dest == NULL) {
-			(*charsRequired) += ampersandLen + keyRequiredChars + ((value == NULL)
-						? 0
-						: 1 + valueRequiredChars);
+			/* NOTE: keyRequiredChars <= INT_MAX - worstCase, see check above */
+			int itemRequiredChars = ampersandLen + keyRequiredChars;
+			if (value != NULL) {
+				if (valueRequiredChars > INT_MAX - 1 - itemRequiredChars) {
+					return URI_ERROR_OUTPUT_TOO_LARGE;
+				}
+				itemRequiredChars += 1 + valueRequiredChars;
+			}
+			if (*charsRequired > INT_MAX - itemRequiredChars) {
+				return URI_ERROR_OUTPUT_TOO_LARGE;
+			}
+			(*charsRequired) += itemRequiredChars;
 
 			if (firstItem == URI_TRUE) {
 				ampersandLen = 1;
